@@ -7,7 +7,7 @@ from vf.props import deductive, rt_props
 
 KEYS = ["vf.contracts.laws:sdd_twice", "vf.contracts.laws:quote_twice", "vf.contracts.laws:unquote_quote",
         "doctrans.pure_utils:quote", "doctrans.pure_utils:unquote", "doctrans.ast_utils:set_value",
-        "doctrans.defaults_utils:set_default_doc"]
+        "doctrans.defaults_utils:set_default_doc", "doctrans.docstring_parsers:_set_name_and_type"]
 
 
 def three_emissions(kind, ir, opts):
